@@ -162,7 +162,9 @@ class TapeRecorder(object):
         metadata[TapeRecorder.INCOMPLETE_RECORDING] = incomplete
         if post_operation_metadata_extractor:
             try:
-                metadata.update(post_operation_metadata_extractor())
+                # Build the extracted metadata first so that a malformed extractor result adds nothing (update is not atomic)
+                extracted_metadata = dict(post_operation_metadata_extractor())
+                metadata.update(extracted_metadata)
             except Exception:
                 _logger.exception(u'Exception caught while extractor post operation metadata for recording id {}, '
                                   u'skipping metadata extraction'.format(recording.id))
